@@ -682,6 +682,28 @@ class TermInterp:
         if isinstance(e.ops[0], (ast.Is, ast.IsNot)):
             r = (a is None) == (b is None) if (a is None or b is None) else _unsup("is on values")
             return r if isinstance(e.ops[0], ast.Is) else not r
+        if isinstance(a, (tuple, list)) and isinstance(b, (tuple, list)) and isinstance(e.ops[0], (ast.Eq, ast.NotEq)):
+            # shapes: x.shape == (d, d), element by element
+            if len(a) != len(b):
+                return isinstance(e.ops[0], ast.NotEq)
+            res = []
+            for x_, y_ in zip(a, b):
+                sub = ast.copy_location(ast.Compare(left=ast.Constant(value=0), ops=[ast.Eq()], comparators=[ast.Constant(value=0)]), e)
+                px = x_.term if isinstance(x_, TArr) and x_.shape == () else (x_ if isinstance(x_, Poly) else (Poly.const(x_) if isinstance(x_, (int, Fr)) else None))
+                py = y_.term if isinstance(y_, TArr) and y_.shape == () else (y_ if isinstance(y_, Poly) else (Poly.const(y_) if isinstance(y_, (int, Fr)) else None))
+                if px is None or py is None:
+                    if x_ == y_:
+                        res.append(True)
+                        continue
+                    raise Unsupported(f"comparison {norm_src(e)[:60]}")
+                if px == py:
+                    res.append(True)
+                elif px.is_const() and py.is_const():
+                    res.append(False)
+                else:
+                    raise Unsupported(f"comparison {norm_src(e)[:60]}")
+            eq = all(res)
+            return eq if isinstance(e.ops[0], ast.Eq) else not eq
         if isinstance(a, TArr) and a.ndim > 0:
             src = norm_src(e)
             # clip mask of the raw predictions: 1 strictly inside the clip interval
@@ -800,6 +822,19 @@ class TermInterp:
             recv = self.ev(c.func.value)
             if isinstance(recv, TArr):
                 return self.method(c, recv, name)
+        # a plain helper function of the package (module level, positional parameters, no *args): interpreted with the argument terms
+        res = getattr(self, "func_resolver", None)
+        if res is not None and isinstance(c.func, ast.Name) and not c.keywords and getattr(self, "_depth", 0) < 4:
+            fdef = res(c.func.id)
+            if fdef is not None and not fdef.args.vararg and not fdef.args.kwarg and len(c.args) == len(fdef.args.args) and not fdef.decorator_list:
+                env = {a.arg: self.ev(x) for a, x in zip(fdef.args.args, c.args)}
+                sub = TermInterp(env, self.attrs, self.notes, self.mode, self.attr_default, self.super_call)
+                sub.func_resolver = res
+                sub._depth = getattr(self, "_depth", 0) + 1
+                for k_ in ("call_hook", "on_update", "symbolic_clip"):
+                    if hasattr(self, k_):
+                        setattr(sub, k_, getattr(self, k_))
+                return sub.run(fdef)
         raise Unsupported(f"call {fn[:50]}")
 
     def emd2(self, c):
